@@ -9,6 +9,7 @@ CONSTANTS
   MaxTip = 1
   MaxRestart = 0
   MaxPR = 0
+  Drops = FALSE
   MaxDup = 0
   MaxAdv = 0
   Calm = FALSE
